@@ -10,39 +10,6 @@ From TV Require Import Model.ParamSubst Proof.ParamSubstLex Proof.ParamSubstLit 
 Import ListNotations.
 Open Scope Z_scope.
 
-(* bytes that may follow a placeholder: whitespace, `)`, `,` and `;` *)
-Definition is_sep_after (b : Z) : bool := is_ws b || (b =? 41) || (b =? 44) || (b =? 59).
-
-Definition simple_val (v : val) : bool := val_ok v && negb (is_float v).
-
-(* every parameter item is preceded by a one-byte separator item (or starts the statement) and is
-   followed by a non-parameter item that begins with a separator (or ends the statement) *)
-Fixpoint isolated (prev_ok : bool) (items : list item) : bool :=
-  match items with
-  | [] => true
-  | (k, txt) :: t =>
-      if is_param k then
-        prev_ok
-        && match t with
-           | [] => true
-           | (k2, c :: _) :: _ => negb (is_param k2) && is_sep_after c
-           | (_, []) :: _ => false
-           end
-        && isolated false t
-      else isolated (match txt with [c] => is_sep_before c | _ => false end) t
-  end.
-
-(* the tokens of a literal *)
-Definition lit_items (v : val) : list item :=
-  match v with
-  | VNull => [(KId, t_null)]
-  | VBool b => [(KId, if b then t_true else t_false)]
-  | VInt z => if z <? 0 then [(KMinus, [45]); (KInt, show_nat (- z))] else [(KInt, show_nat z)]
-  | VText s => [(KStr, render (VText s))]
-  | VBlob b => [(KHex, render (VBlob b))]
-  | VFloat _ _ => []
-  end.
-
 (* ---------------------------------------------------------------- the token loop as a relation *)
 Inductive lexes : list Z -> list item -> Prop :=
 | lexes_nil : lexes [] []
